@@ -85,6 +85,37 @@ mod proofs {
     #[kani::proof]
     #[kani::unwind(7)]
     fn two_batches_full_after_first_desc() { run2::<CmpGreaterThan>(2, 2, 2); }
+    // execute followed by finalize: the rows come out in the requested order (the full contract of ORDER BY key LIMIT n within a batch)
+    fn run_final<C: Comparator<i64>>(n: usize, len: usize) {
+        let vals: [i8; ROWS] = kani::any();
+        let all: Vec<i64> = vec![vals[0] as i64, vals[1] as i64, vals[2] as i64, vals[3] as i64];
+        let input_cell = RefCell::new(all.clone());
+        let indices_cell: RefCell<Vec<usize>> = RefCell::new(Vec::with_capacity(n));
+        let keys_cell: RefCell<Vec<i64>> = RefCell::new(Vec::with_capacity(n));
+        kani::assume(indices_cell.borrow().capacity() == n && keys_cell.borrow().capacity() == n);
+        let mut this = TopNState { n, last_index: 0 };
+        let r = top_n_execute::<C>(&mut this, Ref::map(input_cell.borrow(), |v| &v[..len]), indices_cell.borrow_mut(), keys_cell.borrow_mut());
+        assert!(r.is_ok(), "[ok] a batch is always accepted");
+        let out = top_n_finalize::<C>(indices_cell.borrow_mut(), keys_cell.borrow_mut());
+        let kept = if n < len { n } else { len };
+        assert!(out.len() == kept, "[keeps-min-n-rows] exactly min(n, rows) rows are returned");
+        for j in 0..kept {
+            assert!(out[j] < len, "[row-in-range] every returned row number is a row of the input");
+            if j + 1 < kept { assert!(!C::cmp(all[out[j + 1]], all[out[j]]), "[in-order] the returned rows are in the requested order"); }
+            for k in 0..kept { assert!(j == k || out[j] != out[k], "[rows-distinct] no row is returned twice"); }
+        }
+        for p in 0..len {
+            let mut is_kept = false;
+            for j in 0..kept { if out[j] == p { is_kept = true; } }
+            if !is_kept && kept > 0 { assert!(!C::cmp(all[p], all[out[kept - 1]]), "[dropped-not-better] a row that is not returned does not sort strictly before the last returned row"); }
+        }
+    }
+    #[kani::proof]
+    #[kani::unwind(7)]
+    fn execute_then_finalize_limit2_four_rows_asc() { run_final::<CmpLessThan>(2, 4); }
+    #[kani::proof]
+    #[kani::unwind(7)]
+    fn execute_then_finalize_limit3_three_rows_desc() { run_final::<CmpGreaterThan>(3, 3); }
     #[kani::proof]
     fn vx_canary() {
         let x: u8 = kani::any();
